@@ -25,7 +25,7 @@ def main(tier, seed, prop="C02", torn=False, only_kinds=None, corpus=None, nrand
         # a batch whose single oplog entry exceeds the 65536-byte flush threshold (the call flushes whatever the cadence says), as
         # first, as non-first call of the session, and on top of pending entries; cuts of its long journal are sampled
         big = lambda n: ("append", [bytes([65 + i % 26]) for i in range(n)])
-        hs += [("big-batch", h) for h in ([[("append", [b"a", b"bc"]), ("append", [b"d"]), big(1000), ("append", [b"e"])]] if tier == "quick" else
+        hs += [("big-batch", h) for h in ([] if (torn and tier == "quick") else [[("append", [b"a", b"bc"]), ("append", [b"d"]), big(1000), ("append", [b"e"])]] if tier == "quick" else
                                          [[("append", [b"a", b"bc"]), ("append", [b"d"]), big(1000), ("append", [b"e"])],
                                           [big(950)], [("append", [b"x"]), ("reopen",), ("append", [b"y"]), big(1200), ("clear", 5, 900)]])]
         for _ in range(nrand):
